@@ -7,8 +7,8 @@ import json, os, shutil, subprocess, sys
 def sh(cmd, **k):
     return subprocess.run(cmd, shell=True, capture_output=True, text=True, **k)
 
-def main(pid):
-    src = '/tmp/wt/%s/seeds' % pid
+def main(pid, prefix='', offset=0):
+    src = '/tmp/wt/%s%s/seeds' % (prefix, pid)
     if not os.path.isdir(src):
         print("no seeds dir for", pid); return
     for n in sorted(os.listdir(src)):
@@ -35,7 +35,7 @@ def main(pid):
             if not ok:
                 print('   ', (r0.stdout + r0.stderr)[-300:], '|', (r1.stdout + r1.stderr)[-300:], '|', bl.stdout[-300:])
                 continue
-            dst = '/verif/seeded/%s-%s' % (pid, n)
+            dst = '/verif/seeded/%s-%s' % (pid, int(n) + offset)
             os.makedirs(dst, exist_ok=True)
             shutil.copy(patch, dst + '/patch.diff'); shutil.copy(demo, dst + '/demo.py')
             try:
@@ -54,5 +54,10 @@ def main(pid):
         finally:
             sh('git -C /repo worktree remove --force %s' % wt)
 
-for pid in sys.argv[1:]:
-    main(pid)
+args = sys.argv[1:]
+prefix, offset = '', 0
+if args and args[0] == '--round2':
+    prefix, offset = 'R2_', 2
+    args = args[1:]
+for pid in args:
+    main(pid, prefix, offset)
